@@ -327,12 +327,21 @@ class CellBasis(AbstractBasis):
             Set to `np.complex64` or similar to use complex numbers.
 
         """
+        from copy import copy
         from skfem.utils import solve, condense
+
+        if elements is not None:
+            # integrate over the given elements only
+            tind = (np.arange(self.mesh.nelements) if self.tind is None
+                    else self.tind)
+            sub = copy(self)
+            sub.dx = self.dx * np.isin(
+                tind, self.mesh.normalize_elements(elements))[:, None]
+            M, f = sub._projection(interp, dtype=dtype)
+            return solve(*condense(M, f, I=self.get_dofs(elements=elements)))
 
         M, f = self._projection(interp, dtype=dtype)
 
-        if elements is not None:
-            return solve(*condense(M, f, I=self.get_dofs(elements=elements)))
-        elif self.tind is not None:
+        if self.tind is not None:
             return solve(*condense(M, f, I=self.get_dofs(elements=self.tind)))
         return solve(M, f)
